@@ -174,6 +174,16 @@ Definition ahead_step (cfg : rcfg) (s : rstate) (p d : Z) : rstate * rout :=
   | _, _ => (s, out_nil)
   end.
 
+(* like ahead_step without the oracle restriction.  On the CURRENT code such a straggler, when it is a multiple of
+   updateRequestEvery, broadcasts itself as progress although the records between the position and it were not
+   recovered, and when it is beyond to it closes the request; a re-assignment / crash before the fresh stream catches up
+   then loses those records (known finding F11). *)
+Definition wild_step (cfg : rcfg) (s : rstate) (p d : Z) : rstate * rout :=
+  match pget p (cli s), pget p (active s) with
+  | Some n, Some _ => rec_step cfg s p (n + 1 + Z.abs d)
+  | _, _ => (s, out_nil)
+  end.
+
 (* ---- processError (recoveryconsumer.go:207-251) ---- *)
 Definition low_of (lows : pmap Z) (p : Z) : Z := match pget p lows with Some l => l | None => 0 end.
 
@@ -223,7 +233,12 @@ Inductive rop :=
 | Request (p f t : Z)              (* RequestRecovery *)
 | MAssign (cerr : bool) (pcs : list (Z * (Z * Z)))    (* assignPartitions: partition, committed, high (<0: query fails) *)
 | Deliver (m : msg)                (* KafkaConsumer.Receive *)
-| Crash.                           (* the instance is replaced by a new one that has read the compacted topic *)
+| Crash                            (* the instance is replaced by a new one that has read the compacted topic *)
+| RecCrash (p : Z)                 (* the client delivers its next record of p and the instance stops while handling it:
+                                      if the record is to be emitted the handler is blocked on the send (back-pressure)
+                                      when the instance dies - see rec_crash *)
+| Wild (p d : Z).                  (* an UNRESTRICTED straggler ahead of the client's position (offset n+1+|d|), possibly on the
+                                      progress-broadcast grid or beyond to - see wild_step *)
 
 Definition replay (log : list bcast) : tstate :=
   fold_left (fun t m => receive t (fst m) (snd m)) log [].
@@ -234,6 +249,28 @@ Definition massign_in (cfg : rcfg) (cerr : bool) (pcs : list (Z * (Z * Z))) : ar
          (if cerr then CErr else COk (map (fun x => (fst x, fst (snd x))) pcs))
          (map (fun x => if snd (snd x) <? 0 then WErr else WOk 0 (snd (snd x))) pcs)
          false.
+
+Definition crash_state (s : rstate) : rstate :=
+  {| owned := []; active := []; trk := replay (mlog s); cli := []; mlog := mlog s |}.
+
+(* recoverSingleEvent reaches the send (recoveryconsumer.go:311) exactly when the partition is active and
+   from < offset <= to *)
+Definition would_send (s : rstate) (p n : Z) : bool :=
+  match pget p (active s) with Some (f, to) => (f <? n) && (n <=? to) | None => false end.
+
+(* The owner dies while handling the next record of p.  If the record is one to emit, everything BEFORE the send has
+   happened - the window checks and the limiter wait (recoveryconsumer.go:272-304; line 307 only touches a local copy) -
+   the event is not emitted and what comes AFTER the send (the progress broadcast, :319-324) never happens.  Otherwise
+   the handler returns normally (nothing is sent on those paths) and the instance dies right after. *)
+Definition rec_crash (cfg : rcfg) (s : rstate) (p : Z) : rstate * rout :=
+  match pget p (cli s) with
+  | None => (crash_state s, out_nil)
+  | Some n =>
+      if would_send s p n then
+        (crash_state s, {| o_emits := []; o_calls := []; o_sent := []; o_err := false; o_acks := 0; o_waits := [0] |})
+      else
+        let '(s1, out) := rec_step cfg s p n in (crash_state s1, out)
+  end.
 
 Definition rstep (cfg : rcfg) (s : rstate) (op : rop) : rstate * rout :=
   match op with
@@ -272,8 +309,9 @@ Definition rstep (cfg : rcfg) (s : rstate) (op : rop) : rstate * rout :=
        {| o_emits := []; o_calls := []; o_sent := tout r; o_err := false; o_acks := 1; o_waits := [] |})
   | Deliver MUnknown =>
       (s, {| o_emits := []; o_calls := []; o_sent := []; o_err := true; o_acks := 0; o_waits := [] |})
-  | Crash =>
-      ({| owned := []; active := []; trk := replay (mlog s); cli := []; mlog := mlog s |}, out_nil)
+  | Crash => (crash_state s, out_nil)
+  | RecCrash p => rec_crash cfg s p
+  | Wild p d => wild_step cfg s p d
   end.
 
 (* the run: state and output after every op *)
